@@ -59,4 +59,13 @@ def walk (guarded : Bool) (limit cap : Nat) : (remaining d : Nat) → Outcome
       | 0 => .done
       | r + 1 => walk guarded limit cap r (d + 1)
 
+/-- (3) the loop of `FlattenIntoWithPathImpl`'s custom case: one entry of the `arity`-long entries tuple
+is read with the unchecked `PyTuple_GET_ITEM` for every child the flatten function yields; `guarded` =
+"the counter is compared with `arity` before the read" -/
+def entriesLoop (guarded : Bool) (arity : Nat) : (childrenLeft idx : Nat) → Outcome
+  | 0, idx => if idx != arity then .raised .runtime else .done
+  | k + 1, idx =>
+      if idx ≥ arity then (if guarded then .raised .runtime else .fault)
+      else entriesLoop guarded arity k (idx + 1)
+
 end Optree
